@@ -1,6 +1,7 @@
 import GateryModel.C15.Lemmas
 import GateryModel.C15.Gray
 import GateryModel.C15.ArrayLemmas
+import GateryModel.C15.TransLemmas
 /-!
 # C15 — property theorems: the library FIFO is a loss-free, duplicate-free, order-preserving queue
 
@@ -271,6 +272,33 @@ theorem array_flags_selected (kf k : Nat) (x : α) (es : List (AEv α)) (e : AEv
     rw [← hq1, ← hq2] at hpk
     rw [hpk]; exact congrArg some hop.symm
 
+/-- **TransactionalFifo refines the tentative queue** (model `C15/Trans.lean` of scl/TransactionalFifo.h, single clock;
+specification `TSpec`/`tcheck`: `com` = everything the producer committed, `gc` = how much of it the consumer
+committed, `gt` = tentative pops since).  For every depth `2^k`, latencies, payload type and every schedule of
+push / commitPush(cutoff) / rollbackPush / pop / commitPop / rollbackPop strobes — in any same-cycle combination —
+that respects the caller obligations `TOk`, in the state reached and for any next cycle `e`:
+
+* whatever is yielded (`popValid`) or exposed (`!empty`) is `com[gc+gt]` — the oldest committed item the consumer has
+  not taken since its last commit; as `rollbackPop` resets `gt` to 0 even when a pop happens in the same cycle
+  (the specification's statement order), every item popped since the last `commitPop` is delivered again, and committed
+  items are never lost, duplicated or reordered; uncommitted or rolled-back pushes are never seen;
+* the consumer never gets ahead of what is committed (`gc + gt ≤ |com|`), and with nothing left `empty` is on;
+* room is only freed by committed pops: `|com| + |tent| - gc ≤ N`, a push is accepted only below `N`, and at `N` `full` is on. -/
+theorem trans_refines_tentative_queue [BEq α] (c : Cfg) (x : α) (es : List (TEv α))
+    (hok : TOk c (tinit c x) {} es) (e : TEv α) :
+    let s := trun c (tinit c x) es
+    let q := tspecRun c (tinit c x) {} es
+    (s.popValid e = true → q.com[q.gc + q.gt]? = some s.peek) ∧
+    (s.empty = false → q.com[q.gc + q.gt]? = some s.peek) ∧
+    q.gc + q.gt ≤ q.com.length ∧
+    (q.com.length ≤ q.gc + q.gt → s.empty = true) ∧
+    q.com.length + q.tent.length - q.gc ≤ c.N ∧
+    (s.pushValid e = true → q.com.length + q.tent.length - q.gc < c.N) ∧
+    (q.com.length + q.tent.length - q.gc = c.N → s.full = true) := by
+  intro s q
+  obtain ⟨g, hi, hr⟩ := trun_inv c (tinit c x) (tginit c) {} es (tinv_init c x) (specRel_init c) hok
+  exact trans_facts c s g q e hi hr
+
 /-! ### non-vacuity -/
 
 private def ev (pc qc push : Bool) (d : Nat) (pop : Bool) : Ev Nat :=
@@ -314,5 +342,19 @@ private def demoArr : List (AEv Nat) :=
 example : acceptedAt 0 (arrTrace (cfg1 1) 0 (arrInit 1 (cfg1 1) 0) demoArr) = [21, 22] ∧
           acceptedAt 1 (arrTrace (cfg1 1) 0 (arrInit 1 (cfg1 1) 0) demoArr) = [11, 12] ∧
           yieldedAt 1 (arrTrace (cfg1 1) 0 (arrInit 1 (cfg1 1) 0) demoArr) = [11] := by decide
+
+-- TransactionalFifo, depth 8, latency 1: push 10..50 committing each, pop two items without committing, raise
+-- rollbackPop while pop is still high (item 30 is yielded and rolled back as well), then drain committing every pop
+private def tev (push : Bool) (d : Nat) (pop qc qr : Bool) : TEv Nat :=
+  { pushReq := push, data := d, pushCommit := true, pushRollback := false, cutoff := 0, popReq := pop, popCommit := qc, popRollback := qr }
+private def demoTrans : List (TEv Nat) :=
+  [tev true 10 false false false, tev true 20 false false false, tev true 30 false false false, tev true 40 false false false,
+   tev true 50 false false false, tev false 0 true false false, tev false 0 true false false, tev false 0 true false true,
+   tev false 0 true true false, tev false 0 true true false, tev false 0 true true false, tev false 0 true true false,
+   tev false 0 true true false, tev false 0 true true false]
+example : TOk ⟨3, 1, 1⟩ (tinit ⟨3, 1, 1⟩ 0) {} demoTrans := by decide
+example : (ttrace ⟨3, 1, 1⟩ (tinit ⟨3, 1, 1⟩ 0) demoTrans).filterMap (fun eo => if eo.2.popValid then some eo.2.peek else none) =
+          [10, 20, 30, 10, 20, 30, 40, 50] ∧
+          (tspecRun ⟨3, 1, 1⟩ (tinit ⟨3, 1, 1⟩ 0) {} demoTrans).gc = 5 := by decide
 
 end Gatery.C15.Props
